@@ -34,7 +34,9 @@ func domainPrefixBasic(domain string) (string, error) {
 	// 4. If the output of step 3 has a "-" (hyphen) at both positions 3 and
 	//    4, then to the output of step 3, add a prefix of "0-" and add a
 	//    suffix of "-0".
-	if len(prefix) >= 4 && prefix[2] == '-' && prefix[3] == '-' {
+	//    Positions count characters, not bytes: prefix may contain
+	//    non-ASCII characters at this point.
+	if r := []rune(prefix); len(r) >= 4 && r[2] == '-' && r[3] == '-' {
 		prefix = "0-" + prefix + "-0"
 	}
 
